@@ -210,6 +210,15 @@ def generate(rs, mode, tier, index):
     U, kinds = make_universe(rng, sysd, n_u, proc)
     weighted = rng.coin(0.45)
     Wu = sig(rng.uniform(0.5, 2.0, U.shape)) if weighted else None
+    if weighted and n_u >= 2 and rng.coin(0.4):
+        # twin rows: identical targets carrying different weight rows (row i depends on row i
+        # of the targets *and of its weights*); out-of-gamut twins make the weights matter
+        outs = [i for i, k in enumerate(kinds) if k == "out"] or list(range(n_u))
+        i = rng.choice(outs)
+        j = (i + 1) % n_u if rng.coin(0.6) else rng.choice([x for x in range(n_u) if x != i])
+        U[j] = U[i]
+        kinds[j] = kinds[i] + "_twin"
+        Wu[j] = sig(Wu[i] * rng.uniform(0.3, 3.0, Wu.shape[1]))
     # solver configuration (documented **opt_kwargs pass-through)
     if proc == "minimize_variance":
         cfg = "ha"                       # both stages need an accurate solver to be feasible
